@@ -190,6 +190,13 @@ theorem decisions_scale_invariant : ∀ en ∈ decisions, ∀ k : ℝ, 0 < k →
 /-- every argument of a geometry call with a declared signature has the dimension the signature asks for -/
 theorem geometry_arguments_scale : Scales geomArgs := table_scales _
 
+/-- `SplineGroove.__init__` (the one groove class that is not built on the junction chain): what it stores as `width`,
+    `usable_width`, `depth`, `contour_points` and the centring shift it subtracts from the abscissae are lengths computed
+    from the given contour coordinates alone, so they scale with them -/
+theorem spline_attributes_scale : Scales attrAssignments := table_scales _
+
+theorem spline_attributes_are_lengths : ∀ en ∈ attrAssignments, en.d = 1 := by decide +kernel
+
 /-- `Unit.solve`'s convergence test is relative, hence scale free whatever the dimension of the compared component -/
 theorem convergence_test_scale_free (c o p k : ℝ) (d : ℤ) (hk : 0 < k) :
     (|k ^ d * c - k ^ d * o| ≤ |k ^ d * o| * p) ↔ (|c - o| ≤ |o| * p) := by
@@ -200,8 +207,8 @@ theorem convergence_test_scale_free (c o p k : ℝ) (d : ℤ) (hk : 0 < k) :
 /-! ### what is NOT homogeneous -/
 
 /-- The ACCEPTED exceptions (stable keys `file:function:kind#ordinal`): the unit-bound ASTM grain-size number, the absolute
-    buffers `1e-9` / `1e-12`, `np.isclose` on the depth and on the junction coordinates, the absolute stop test `0.01` of
-    the velocity loops. -/
+    buffers `1e-9` / `1e-12`, `np.isclose` on the depth, on the junction coordinates and on the ordinates of a spline
+    contour (face test of `SplineGroove`), the absolute stop test `0.01` of the velocity loops. -/
 def accepted : List String :=
   ["profile/hookimpls.py:astm_grain_size_number#alt0",
    "roll_pass/hookimpls/base_roll_pass.py:contact_contour_lines:arg:buffer#1",
@@ -215,7 +222,10 @@ def accepted : List String :=
    "profile/profile.py:Profile.local_height:arg:buffer#1",
    "profile/profile.py:Profile.local_width:arg:buffer#1",
    "sequence/sequence.py:PassSequence.solve_velocities_backward:cmp#1",
-   "sequence/sequence.py:PassSequence.solve_velocities_forward:cmp#1"]
+   "sequence/sequence.py:PassSequence.solve_velocities_forward:cmp#1",
+   "grooves/spline.py:SplineGroove.__init__:isclose#1",
+   "grooves/spline.py:SplineGroove.__init__:isclose#2",
+   "grooves/spline.py:SplineGroove.__init__:isclose#3"]
 
 /-- **Every translated item whose certificate is not the declared one is an accepted exception** (each row of `inhomogeneous`
     carries the kernel-checked refutation of its certificate).  An edit of the source that adds an absolute tolerance, a
@@ -227,6 +237,48 @@ theorem inhomogeneous_accepted : ∀ en ∈ inhomogeneous, en.key ∈ accepted :
   simp only [accepted, List.mem_cons, true_or, or_true, and_self]
 
 theorem inhomogeneous_refuted : ∀ en ∈ inhomogeneous, ¬ Cert Γ en.e en.d := fun en _ => en.bad
+
+/-- `np.isclose(a, b)` with numpy's default tolerances, as the translator writes it: `|a - b| - (1e-8 + 1e-5 |b|)` -/
+def iscloseTerm (a b : Expr) : Expr := .sub (.abs (.sub a b)) (.add (.dec 1 8) (.mul (.dec 1 5) (.abs b)))
+
+/-- the velocity stop test `|prior - current| < 0.01` -/
+def stopTerm : Expr := .sub (.abs (.sub (.var "prior_velocities") (.var "current_velocities"))) (.dec 1 2)
+
+/-- The accepted exceptions WITH THEIR VALUE: the translated term of each.  An exception is accepted as the tolerance it
+    is now (`1e-8`, `1e-9`, `1e-12`, `0.01`, numpy's defaults), not as a place where any tolerance may stand. -/
+def acceptedTerms : List (String × Expr) :=
+  [("profile/hookimpls.py:astm_grain_size_number#alt0",
+     .add (.nat 1) (.div (.log (.div (.div (.nat 1) (.mul .pi (.pow (.div (.div (.var "grain_size") (.dec 254 4))
+       (.nat 2)) 2))) (.pow (.nat 100) 2))) (.log (.nat 2)))),
+   ("roll_pass/hookimpls/base_roll_pass.py:contact_contour_lines:arg:buffer#1", .dec 1 9),
+   ("grooves/generic_elongation.py:GenericElongationGroove.__init__:isclose#1", iscloseTerm (.var "depth") (.nat 0)),
+   ("grooves/generic_elongation.py:GenericElongationGroove.__init__:isclose#2", iscloseTerm (.var "depth") (.nat 0)),
+   ("grooves/generic_elongation.py:GenericElongationGroove._enumerate_contour_points:isclose#1",
+     iscloseTerm (.var "z1") (.var "z3")),
+   ("grooves/generic_elongation.py:GenericElongationGroove._enumerate_contour_points:isclose#2",
+     iscloseTerm (.var "z3") (.var "z4")),
+   ("grooves/generic_elongation.py:GenericElongationGroove._enumerate_contour_points:isclose#3",
+     iscloseTerm (.var "z4") (.var "z5")),
+   ("grooves/generic_elongation.py:GenericElongationGroove._enumerate_contour_points:isclose#4",
+     iscloseTerm (.var "z5") (.var "z6")),
+   ("grooves/generic_elongation.py:GenericElongationGroove._enumerate_contour_points:isclose#5",
+     iscloseTerm (.var "z6") (.var "z7")),
+   ("profile/profile.py:Profile.local_height:arg:buffer#1", .dec 1 12),
+   ("profile/profile.py:Profile.local_width:arg:buffer#1", .dec 1 12),
+   ("sequence/sequence.py:PassSequence.solve_velocities_backward:cmp#1", stopTerm),
+   ("sequence/sequence.py:PassSequence.solve_velocities_forward:cmp#1", stopTerm),
+   ("grooves/spline.py:SplineGroove.__init__:isclose#1", iscloseTerm (.var "contour_points") (.nat 0)),
+   ("grooves/spline.py:SplineGroove.__init__:isclose#2", iscloseTerm (.var "contour_points") (.nat 0)),
+   ("grooves/spline.py:SplineGroove.__init__:isclose#3", iscloseTerm (.var "contour_points") (.nat 0))]
+
+/-- **Every inhomogeneous item is an accepted exception with the accepted value**: key AND translated term are in
+    `acceptedTerms` (keys compared by their injective `strCode`).  Changing the literal of an accepted tolerance
+    (`1e-9 → 1e-6`, `np.isclose(…, atol=…)`) keeps the key of the row but not its term, and this theorem fails. -/
+theorem inhomogeneous_terms_pinned :
+    ∀ en ∈ inhomogeneous, (strCode en.key, en.e) ∈ acceptedTerms.map (fun p => (strCode p.1, p.2)) := by
+  decide +kernel
+
+theorem acceptedTerms_keys : acceptedTerms.map (·.1) = accepted := rfl
 
 /-! #### conditional lemmas: when does an absolute tolerance leave a decision unchanged? -/
 
@@ -331,7 +383,20 @@ noncomputable def ρ0 : String → ℝ := fun v =>
   if v = "roll.min_radius" then 0.16 else if v = "in_profile.height" then 0.03 else if v = "height" then 0.02 else 1
 
 example : 0 < hookFormulas.length ∧ 0 < junctions.length ∧ 0 < residuals.length ∧ 0 < brackets.length ∧
-    0 < decisions.length ∧ 0 < geomArgs.length ∧ 0 < starts.length ∧ 0 < fixedPointMaps.length := by decide +kernel
+    0 < decisions.length ∧ 0 < geomArgs.length ∧ 0 < starts.length ∧ 0 < fixedPointMaps.length ∧
+    0 < attrAssignments.length ∧ 0 < inhomogeneous.length := by decide +kernel
+
+/-- the face test of `SplineGroove` with the accepted tolerance: a fillet vertex 1.1·10⁻⁷ m above the face (r = 3 mm sampled
+    every 0.5°, described in metres) is off the face in every unit from metres upwards … -/
+example : ∀ k k' : ℝ, 1 ≤ k → 1 ≤ k' →
+    (isClose 1e-8 1e-5 (k * 1.1e-7) (k * 0) ↔ isClose 1e-8 1e-5 (k' * 1.1e-7) (k' * 0)) :=
+  isclose_scale_stable 1e-8 1e-5 1.1e-7 0 1 (by norm_num) (by norm_num)
+    (Or.inr (by rw [abs_zero, sub_zero, abs_of_pos (by norm_num : (0:ℝ) < 1.1e-7)]; norm_num))
+
+/-- … whereas the fillet of a thin-wire groove (r = 0.1 mm: 3.8·10⁻⁹ m) is a face vertex in metres and not in millimetres
+    (finding 2 of notes/C11.md; the generators of the two-run oracle stay on the side of the example above) -/
+example : isClose 1e-8 1e-5 3.8e-9 0 ∧ ¬ isClose 1e-8 1e-5 (1000 * 3.8e-9) (1000 * 0) := by
+  constructor <;> unfold isClose <;> norm_num [abs_of_pos]
 
 /-- the three variables of the entry-point formula are declared lengths, so the metres → millimetres change of unit
     multiplies each of them by 1000 … -/
